@@ -77,6 +77,23 @@ def gen_bands(tier, seed):
                                                           for dla in (3e-8, -3e-8, 1e-5, 0.01, -1.0, 30.0 if la1 < 50 else -30.0)]}
 
 
+    # (c) far pairs (separation 170 .. 178 deg) WRITTEN ACROSS the 180-degree meridian: the raw longitude difference exceeds 180 deg in
+    # magnitude although the points are less than half a turn apart (and the same pairs written without the jump)
+    for ell in ells:
+        for la1 in (-40.0, -10.0, 0.0, 25.0, 50.0):
+            for lo1 in (95.0, 120.0, 170.0, -100.0):
+                p2s = []
+                for dtrue in (170.0, 174.5, 176.0, 177.0, 177.8):
+                    for dla in (0.8, -1.5, 3.0):
+                        for sg in (1, -1):
+                            lon2 = lo1 + sg * dtrue
+                            lon2w = lon2 - 360.0 if lon2 > 180.0 else lon2 + 360.0 if lon2 < -180.0 else lon2
+                            for l2 in {lon2, lon2w}:
+                                if sph_sep((la1, lo1), (-la1 + dla, l2)) <= 178.0:
+                                    p2s.append([-la1 + dla, l2])
+                yield {'ell': ell, 'p1': [la1, lo1], 'p2s': p2s}
+
+
 def angdiff(a, b):
     return abs((a - b + 180.0) % 360.0 - 180.0)
 
